@@ -6,6 +6,7 @@ the finalisation block of every exited protected block runs exactly once, the ha
 is the chain before it, the sticky code reads as error until fetched.
 -/
 import RelicVerif.Lemmas.Err
+import RelicVerif.Model.ParamSel
 
 namespace Relic.Props.C19
 open Relic.Model.Err
@@ -47,5 +48,59 @@ theorem err_code_reset (p : Prog) : (sRun (.seq p .getcode)).2.1 = 0 ∨
 /-- non-vacuity: a program with nested blocks, rethrow, variable and finally evaluates as expected -/
 example : sRun (.seq (.tryc (.tryc (.throw 1) (.throw 0) (.act 9) true) (.act 8) (.act 10) true) .getcode)
     = ([.act 9, .caught 1, .act 10, .caught 99, .act 8, .code 1], 0, true) := by decide
+
+/-! ### parameter selection is history-free (model: Model/ParamSel.lean over the tables extracted from the source on every run; tie: the
+    re-parameterisation stream — every ordered pair of selectable curves, the same curve after a field change and after
+    core_clean/core_init, rejected identifiers in between — compared with a fresh process) -/
+section Selection
+open Relic.Model.Param
+
+/-- what an accepted selection installs does not depend on what was installed before -/
+theorem selectCurve_fresh (fs : List FieldParam) (cs : List CurveParam) (st st' : CurveSel) (id : Nat)
+    (h : (selectCurve fs cs st id).2 = true) : selectCurve fs cs st id = selectCurve fs cs st' id := by
+  unfold selectCurve at h ⊢
+  cases hc : cs.find? (·.id == id) with
+  | none => rw [hc] at h; simp at h
+  | some c =>
+    rw [hc] at h
+    simp only at h ⊢
+    cases hf : lookupField fs c.field with
+    | none => rw [hf] at h; simp at h
+    | some f => rfl
+
+/-- "after any sequence of parameter selections the library computes exactly what a freshly initialised library with the last selection
+    computes": whatever was selected (or rejected) before, after an accepted selection the installed set is the one a fresh context gets -/
+theorem selection_history_independent (fs : List FieldParam) (cs : List CurveParam) (init fresh : CurveSel) (hist : List Nat) (id : Nat)
+    (h : (selectCurve fs cs fresh id).2 = true) :
+    selStep fs cs (hist.foldl (selStep fs cs) init) id = selStep fs cs fresh id := by
+  unfold selStep
+  have h' : (selectCurve fs cs (hist.foldl (fun st i => (selectCurve fs cs st i).1) init) id).2 = true := by
+    unfold selectCurve at h ⊢
+    cases hc : cs.find? (·.id == id) with
+    | none => rw [hc] at h; simp at h
+    | some c =>
+      rw [hc] at h
+      simp only at h ⊢
+      cases hf : lookupField fs c.field with
+      | none => rw [hf] at h; simp at h
+      | some f => rfl
+  rw [selectCurve_fresh fs cs _ fresh id h']
+
+/-- rejected selections in between leave no trace -/
+theorem rejected_selection_no_trace (fs : List FieldParam) (cs : List CurveParam) (st : CurveSel) (bad : Nat)
+    (h : (selectCurve fs cs st bad).2 = false) : selStep fs cs st bad = st := by
+  unfold selStep
+  unfold selectCurve at h ⊢
+  cases hc : cs.find? (·.id == bad) with
+  | none => rfl
+  | some c =>
+    rw [hc] at h
+    simp only at h ⊢
+    cases hf : lookupField fs c.field with
+    | none => rfl
+    | some f => rw [hf] at h; simp at h
+
+
+end Selection
 
 end Relic.Props.C19
